@@ -305,6 +305,37 @@ func countsOn(al align.Alignment, a gen.Ali, o pbt.Outcome) (pbt.Outcome, error)
 			multi = true
 		}
 	}
+	// variable sites on any case: the documentation ("does not take into account gaps and other
+	// characters like '.'") is silent on case and on N/X: the number lies between the strictest reading
+	// (case folded, wildcard not a character) and the widest one (distinct bytes, wildcard a character)
+	{
+		wl := wildOf(a.Alphabet)
+		lo, hi := 0, 0
+		for j := 0; j < l; j++ {
+			bytesSeen, foldedNoW := map[uint8]bool{}, map[uint8]bool{}
+			for _, ch := range col(a, j) {
+				if ch == '-' || ch == '.' || ch == '*' {
+					continue
+				}
+				bytesSeen[ch] = true
+				if fold(ch) != wl {
+					foldedNoW[fold(ch)] = true
+				}
+			}
+			if len(foldedNoW) > 1 {
+				lo++
+			}
+			if len(bytesSeen) > 1 {
+				hi++
+			}
+		}
+		if nv := al.NbVariableSites(); nv < lo || nv > hi || nv != al.NbVariableSites() {
+			return o, fmt.Errorf("NbVariableSites = %d, between %d (case folded, N/X no character) and %d (distinct bytes) expected", nv, lo, hi)
+		}
+		if lo != hi {
+			o.Ambiguous++
+		}
+	}
 	// count profile: the code is case sensitive, the statement says case-folded: asserted on
 	// upper-case input only, where both agree
 	p := align.NewCountProfileFromAlignment(al)
